@@ -22,7 +22,7 @@ RULE = ("(lattice, enumerated completely in both tiers) the program z = f(a, b);
         "constant leaf tensor replaced by its plain ndarray yields bit-identical gradients for all other tensors. Non-trivial: >=1 constant "
         "and >=1 non-constant tensor upstream of L; distinct = structure + flag assignment.")
 ASSUMPTIONS = ["in-place targets keeping their flag is monitored by C04 on every statement of its histories"]
-TIERS = {"quick": {"cases": 6561 + 3000, "nodes": (2, 8)}, "thorough": {"cases": 6561 + 600000, "nodes": (2, 20)}}
+TIERS = {"quick": {"cases": 6561 + 12000, "nodes": (2, 8)}, "thorough": {"cases": 6561 + 600000, "nodes": (2, 20)}}
 FLOORS = {"quick": {"flag_checks": 40000, "meta_compared": 10000, "lattice_cases": 6561},
           "thorough": {"flag_checks": 200000, "meta_compared": 50000, "lattice_cases": 6561}}
 LATTICE = list(itertools.product(*([list(itertools.product(["float64", "int64", "bool"], [None, True, False]))] * 3), [None, True, False], [None, True, False]))
